@@ -61,6 +61,30 @@ CHECKS = {
             'looked up through the real numdb, and every entry is pushed through its consumer (IBAN structures, GS1 AIs, ISBN '
             'hyphenation, bank/location/office info()).',
             'Quick tier samples every 4th oui.dat consumer witness (lint and reachability are complete in both tiers).', 'DESIGN.md 2/C11'),
+    'C07': ('E1', 'implementation vs reference model over exhaustively enumerated bounded input spaces',
+            'For the 19 listed formats validate() is compared with an independently written reference on complete payload spaces '
+            '(all 10^6 IMO bodies x all check digits; strided/complete for ISSN, EAN-8, SEDOL, CAS), every E1 state, all short '
+            'strings over the format alphabet and the full single-substitution neighbourhood of E2 valid numbers.',
+            'References in vp/refs/standards.py; ISIN/ISRC country lists and FIGI excluded prefixes taken from the pinned tree as '
+            'registry tables; clean-up-table characters are outside this input space (C14).', 'DESIGN.md 2/C07'),
+    'C08': ('E2', 'explicit-state search of the accepted-number graph x presentation variants; every conversion relation executed on every reached number',
+            'Every conversion of the closed list in the statement is executed on every valid source number reached by E2 (plus length '
+            'variants and the 7-digit Norwegian account space) in several spellings: result valid in the target, identity projection '
+            'preserved, paired conversions undo each other, spellings agree.',
+            'Relation table with identity projections is hand-written from the statement and docstrings.', 'DESIGN.md 2/C08'),
+    'C09': ('E2', 'explicit-state search of constituents\' accepted numbers + exhaustive single-edit neighbours x prefix variants; wrapper vs constituent on the same input',
+            'For every (wrapper, constituent) relation every valid constituent number, all its single-edit neighbours and prefix/case '
+            'variants (29 x 29 EU codes) are given to both sides: dispatch equivalence with prefixed result, union equivalence, '
+            'superset/wrapping implications, guessers list exactly the accepting constituents.',
+            'The 29 EU codes and the module each names are written out in the check (not read from MEMBER_STATES).', 'DESIGN.md 2/C09'),
+    'C14': ('E1', 'complete enumeration of all 1,114,112 code points and of bounded strings x all deletechars subsets against the Unicode database; all look-alike substitutions on valid numbers',
+            'clean() is run on every code point and judged from unicodedata only; all strings of length <=2 over every changed '
+            'character x 256 deletechars subsets; every look-alike of every character of seeds substituted in every module.',
+            'Modifier letters becoming an apostrophe and the grave accent fold are permitted by the statement.', 'DESIGN.md 2/C14'),
+    'C16': ('E1', 'exhaustive enumeration of element strings (every AI x format witnesses x AI pairs x separator x parentheses); decode/validate/encode round trips',
+            'Every registered AI with witness values of its declared format, alone and in all ordered pairs of format classes, with '
+            'each separator and parentheses setting: info(validate(x)) == info(x), validate fixed point, info(encode(info(x))) == info(x).',
+            'Witness values are generated from the GS1 format notation (vp/refs/gs1_witness.py).', 'DESIGN.md 2/C16'),
 }
 
 NOT_YET = {}
